@@ -107,7 +107,7 @@ func runLimit(l *c19Limit, scratch string, idx int, sr *run.ShardResult) (class,
 		val[0] = 'v'
 		val[l.ValLen-1] = 'w'
 	}
-	b, err := e.Coll.NewBatch(0, 0)
+	b, err := e.Coll.NewBatch(3, l.KeyLen+l.ValLen+64)
 	if err != nil {
 		return "harness", err.Error()
 	}
@@ -124,6 +124,26 @@ func runLimit(l *c19Limit, scratch string, idx int, sr *run.ShardResult) (class,
 	case "del":
 		opErr = b.Del(key)
 		val = nil
+	case "allocset", "allocmerge", "allocdel":
+		vl := l.ValLen
+		if l.Op == "allocdel" {
+			vl = 0
+			val = nil
+		}
+		buf, aerr := b.Alloc(l.KeyLen + vl)
+		if aerr != nil {
+			return "harness", "Alloc: " + aerr.Error()
+		}
+		copy(buf, key)
+		copy(buf[l.KeyLen:], val)
+		switch l.Op {
+		case "allocset":
+			opErr = b.AllocSet(buf[:l.KeyLen], buf[l.KeyLen:])
+		case "allocmerge":
+			opErr = b.AllocMerge(buf[:l.KeyLen], buf[l.KeyLen:])
+		case "allocdel":
+			opErr = b.AllocDel(buf[:l.KeyLen])
+		}
 	}
 	if err := b.Set([]byte("after"), []byte("2")); err != nil {
 		return "harness", err.Error()
@@ -131,7 +151,7 @@ func runLimit(l *c19Limit, scratch string, idx int, sr *run.ShardResult) (class,
 	wantErr := error(nil)
 	if l.KeyLen > maxKey {
 		wantErr = moss.ErrKeyTooLarge
-	} else if l.ValLen > maxVal && l.Op != "del" {
+	} else if l.ValLen > maxVal && l.Op != "del" && l.Op != "allocdel" {
 		wantErr = moss.ErrValueTooLarge
 	}
 	sr.Units[fmt.Sprintf("limit|%s|key%s|val%s|%s", l.Op, sizeClass(l.KeyLen, maxKey), sizeClass(l.ValLen, maxVal), l.Backing)]++
@@ -146,9 +166,9 @@ func runLimit(l *c19Limit, scratch string, idx int, sr *run.ShardResult) (class,
 	want.KV["after"] = []byte("2")
 	if wantErr == nil {
 		switch l.Op {
-		case "set":
+		case "set", "allocset":
 			want.KV[string(key)] = val
-		case "merge":
+		case "merge", "allocmerge":
 			want.KV[string(key)] = eng.MergeFold(key, nil, val)
 		}
 	}
@@ -288,12 +308,12 @@ func init() {
 		const maxVal = 1<<28 - 1
 		var lims []c19Limit
 		for _, b := range []string{"none", "store"} {
-			for _, op := range []string{"set", "merge", "del"} {
+			for _, op := range []string{"set", "merge", "del", "allocset", "allocmerge", "allocdel"} {
 				for _, kl := range []int{0, 1, maxKey, maxKey + 1} {
 					lims = append(lims, c19Limit{KeyLen: kl, ValLen: 1, Op: op, Backing: b})
 				}
 			}
-			for _, op := range []string{"set", "merge"} {
+			for _, op := range []string{"set", "merge", "allocset", "allocmerge"} {
 				lims = append(lims, c19Limit{KeyLen: 1, ValLen: 0, Op: op, Backing: b})
 				lims = append(lims, c19Limit{KeyLen: 0, ValLen: 0, Op: op, Backing: b})
 				if c.Thorough() {
